@@ -10,7 +10,8 @@ EXPLANATION = (
     "set it is dominated by hasxattr == true; instances are created only when the map has no entry "
     "for that absolute path and looked up / inserted / marked visited under the same key; the "
     "per-run ruleset cgroup is set to that cgroup before the run; instances not visited in a tick are "
-    "erased without touching an invalidated iterator (erase-in-iteration rule); Ruleset::prerun "
+    "erased without touching an invalidated iterator (erase-in-iteration rule) by a drop loop that "
+    "dominates every return after the visiting loop, has no early exit and runs to the end of the map; Ruleset::prerun "
     "reaches prerun of every live instance on the enabled path; a new instance owns freshly created "
     "plugins (registry.create / copy-constructed detector groups), never the template's, and its "
     "actions get the instance cgroup as default 'cgroup' argument before init.  Detector window "
@@ -139,6 +140,32 @@ def run(ctx):
     # the drop loop runs on every tick that iterated (not skipped by early return)
     dl = [l for l in loops(ro) if l is not L and l["stmt"] is not None and "runnable_rulesets_" in loop_header(ro, l)]
     ctx.check(len(dl) == 1, "drop-loop-present", "anchor", ro.loc(), "one loop drops stale instances", "no loop over runnable_rulesets_ drops stale instances")
+    if len(dl) == 1:
+        D = dl[0]
+        dom, succ_, pred_ = dominators(ro)
+        # blocks reachable from the visiting loop
+        seen, st_ = set(), [L["head"]]
+        while st_:
+            u = st_.pop()
+            if u in seen:
+                continue
+            seen.add(u)
+            st_.extend(succ_.get(u, []))
+        skipped = []
+        for r in returns(ro):
+            b = ro.pos_of(r)[0]
+            if b in seen and D["head"] not in dom.get(b, ()):
+                skipped.append(ro.loc(r))
+        ctx.check(not skipped, "drop-loop-on-every-tick", "must_pass_through(dominance)", skipped[0] if skipped else ro.loc(D["stmt"]),
+                  "every return after the visiting loop is dominated by the drop loop: stale instances are looked for on every tick",
+                  "runOnce can return at %s after visiting the cgroups without running the drop loop: an instance whose cgroup disappeared "
+                  "survives the tick (and is reused if the cgroup reappears)" % ", ".join(skipped))
+        no_early_exit(ctx, ro, D, "drop-loop:no-early-exit", "runnable_rulesets_")
+        hdr = loop_header(ro, D)
+        n_ = ro.nodes[D["stmt"]]
+        condt = ro.text(n_["c"]) if n_["k"] == "for" and "c" in n_ else ("range" if n_["k"] == "rangefor" else "?")
+        ctx.check(n_["k"] == "rangefor" or re.match(r"^\((\w+) != this->runnable_rulesets_\.end\(\)\)$|^\(this->runnable_rulesets_\.end\(\) != (\w+)\)$", condt) is not None,
+                  "drop-loop:whole-map", "loop-shape", ro.loc(D["stmt"]), "the drop loop runs until the end of the instance map", "drop loop condition is " + condt)
     # cgroup_-less rulesets run the template directly
     fr = Flow(P, ro, cg=ctx.cg)
     direct = [i for i in ro.calls("Ruleset::runOnceImpl") if i not in impl]
